@@ -94,7 +94,7 @@ def snapshot(o, depth=0, memo=None):
         extra = {k: snapshot(v, depth + 1, memo) for k, v in vars(o).items() if k in ('_name', '_compartment', '_left', '_right', '_rights')}
         return dict(cls=type(o).__name__, elems=sorted(repr(x) for x in o), **extra)
     if hasattr(o, '__dict__'):
-        skip = ('_vp_', 'build', 'setUp', 'results', 'perElementEventDistribution', '_metadata', '_results', '_dynamics', '_container', '_process', '_generator', 'log', 'hf',
+        skip = ('_vp_', 'build', 'setUp', 'results', 'perElementEventDistribution', '_metadata', '_results', '_dynamics', '_container', '_generator', 'log', 'hf',
                 '_runId', '_uniqueId')      # (run counter and instance serial number: meant to differ)
         return dict(cls=type(o).__name__.rstrip('2') if type(o).__name__ in ('D', 'D2') else type(o).__name__, vars=sorted((k, snapshot(v, depth + 1, memo)) for k, v in vars(o).items()
                                                      if not any(k.startswith(x) or k == x for x in skip)))
@@ -858,6 +858,13 @@ def run_case(case):
             p._perLocusEvents = [(l, pr, wrap(f, locus=l), nm) for (l, pr, f, nm) in p._perLocusEvents]
         r_ = registered_check(ex, case)
         if r_: info['oracle'].append(('registered', r_))
+        for p in ex.leaves:
+            for (l, pr, f, nm) in list(p._perElementEvents) + list(p._perLocusEvents):
+                if id(l) not in ex.lidx and type(l).__name__ != 'SingletonLocus':
+                    # (the model's tables cannot even be written down: the event points outside this run)
+                    info['oracle'].append(('fresh', f"{type(p).__name__} enters the run with an event ({nm}) registered on a locus that is not one of this "
+                                           f"run's loci: {len(p._perElementEvents)} per-element events are registered, left over from an earlier run"))
+                    raise RuntimeError('event registered on a locus of another run')
         cfg = [f"NINST {len(ex.cms)} " + ' '.join('1' if p.instanceName() is not None else '0' for p in ex.cms)]
         for l in ex.loci: cfg.append(ex.locus_line(l))
         for p in ex.cms:
